@@ -221,7 +221,18 @@ pub fn observe(id: usize, tags: Vec<String>, j: &Value, s: &SPDC, with_spectrum:
         let js = x.joint_spectrum(integ);
         fx(*(js.jsi(x.signal.frequency(), x.idler.frequency()) / JSIUnits::new(1.)))
       }).collect();
-    json!({"class": "ok", "raw": fxs(&raw), "normalized": fxs(&nrm), "per_setup_jsi": setups})
+    // a second sweep that STARTS at the base setup: every swept setup whose optimum is (bit for bit) the base's optimum must get
+    // from the sweep the value its own JointSpectrum reports at its centre (C20_sweep_is_spectrum)
+    let steps0 = Steps2D((th, th + 0.5, 2), (w, w * 1.1, 2));
+    let nrm0 = SPDCIter::try_new(s.clone(), "crystal.theta_deg", "signal.waist_um", steps0).unwrap().jsi_values_normalized(integ);
+    let base_opt = s.clone().try_as_optimum().ok();
+    let own: Vec<Value> = SPDCIter::try_new(s.clone(), "crystal.theta_deg", "signal.waist_um", steps0).unwrap().into_iter()
+      .map(|x| {
+        let same_opt = base_opt.is_some() && x.clone().try_as_optimum().ok() == base_opt;
+        let js = x.joint_spectrum(integ);
+        json!({"same_opt": same_opt, "same_setup": x == *s, "jsi_n": fx(js.jsi_normalized(x.signal.frequency(), x.idler.frequency()))})
+      }).collect();
+    json!({"class": "ok", "raw": fxs(&raw), "normalized": fxs(&nrm), "per_setup_jsi": setups, "from_base": {"normalized": fxs(&nrm0), "own": own}})
   });
   m.insert("sweep".into(), match sw { Ok(v) => v, Err((msg, loc)) => json!({"class": "panic", "msg": msg, "loc": loc}) });
   Value::Object(m)
